@@ -32,25 +32,42 @@ static __thread int mytid;
 static __thread uint64_t rng;
 static uint64_t seed;
 static inline uint64_t rnd(void){ if(!rng) rng = seed ^ (uint64_t)syscall(SYS_gettid)*0x9e3779b97f4a7c15ull; rng ^= rng<<13; rng ^= rng>>7; rng ^= rng<<17; return rng; }
+// ---- F15 classification: a first pusher between its tail exchange and its wake-up leaves dq_state idle while the list is
+// not empty ("window"); a synchronous submission that takes the fast path while a window is open may overtake items whose
+// submission has already returned (known finding F15). Windows are opened before the tail exchange and closed after the
+// pusher's next modification of dq_state (or when its call returns), so they are never shorter than the real ones.
+static long stateoff[NQ]; static atomic_int open_windows[NQ]; static __thread int win[NQ], tl_pre_open, tl_overtake;
+static void win_close(int q){ if(win[q]){ win[q]=0; atomic_fetch_sub(&open_windows[q],1); } }
 static void cb(const volatile void *addr, unsigned size, int op, uint64_t o, uint64_t n, const char *func, int line){
   (void)size;
+  for (int i=0;i<NQ;i++){ long d = (char*)addr - (char*)Q[i];
+    if (d==stateoff[i]-8 && op==2 && o!=0) win_close(i);                       // not the first pusher: not responsible for the wake-up
+    else if (d==stateoff[i] && op!=4 && op!=0){
+      if (win[i]) win_close(i);
+      if (op==3 && !strcmp(func,"_dispatch_queue_try_acquire_barrier_sync_and_suspend") && (tl_pre_open || atomic_load(&open_windows[i])>0)) tl_overtake=1; } }
   for (int i=0;i<NQ;i++){ long d = (char*)addr - (char*)Q[i]; if (d >= 0 && d < 128) {
     if (!mytid) mytid = (int)syscall(SYS_gettid);
     unsigned long k = atomic_fetch_add(&nev,1); if (k>=MAXEV) return;
     evs[k] = (ev_t){ atomic_fetch_add(&seq,1), mytid, i, (int)d, op, o, n, func, line }; return; } }
 }
-static void ycb(const volatile void *addr, const char *func, int line){ (void)func; (void)line;
+static int marks;
+static void mark(const char *what, int q, long idx){ if(!marks) return; if (!mytid) mytid = (int)syscall(SYS_gettid); unsigned long k = atomic_fetch_add(&nev,1); if (k>=MAXEV) return;
+  evs[k] = (ev_t){ atomic_fetch_add(&seq,1), mytid, q, 999, 0, (uint64_t)idx, 0, what, 0 }; }
+static void ycb(const volatile void *addr, const char *func, int line){ (void)line;
+  for (int i=0;i<NQ;i++){ long d = (char*)addr - (char*)Q[i];
+    if (d==stateoff[i]-8 && strstr(func,"push") && !win[i]){ win[i]=1; atomic_fetch_add(&open_windows[i],1); }
+    if (d==stateoff[i] && !strcmp(func,"_dispatch_queue_try_acquire_barrier_sync_and_suspend")) tl_pre_open = atomic_load(&open_windows[i])>0; }
   for (int i=0;i<NQ;i++){ long d = (char*)addr - (char*)Q[i]; if (d >= 0 && d < 128) { uint64_t r = rnd()%16; if (r==0) sched_yield(); else if (r==1) usleep(rnd()%50); return; } }
 }
 // ---- items and stamps
-typedef struct { int q; int bar; int sync; int thread; _Atomic long call, ret, start, end; _Atomic int runs; } item_t;
+typedef struct { int q; int bar; int sync; int thread; int kind; int overtook; _Atomic long call, ret, start, end; _Atomic int runs; } item_t;
 #define MAXIT (1<<17)
 static item_t *items; static atomic_int nitems;
 static atomic_long clk;
 static atomic_int running[NQ], barrier_running[NQ], done_items, viol; static char vmsg[256];
 static void fail(const char *m, long a, long b, long c){ if(!atomic_exchange(&viol,1)) snprintf(vmsg,sizeof vmsg,"%s %ld %ld %ld",m,a,b,c); }
-static void work(void *c){ item_t *it = c; int q = it->q;
-  atomic_store(&it->start, atomic_fetch_add(&clk,1)+1);
+static void work(void *c){ item_t *it = c; int q = it->q; if(it->sync && tl_overtake) it->overtook=1;
+  atomic_store(&it->start, atomic_fetch_add(&clk,1)+1); mark("MARK_start", q, (long)(it-items));
   if (atomic_fetch_add(&it->runs,1)) fail("item ran more than once: item", (long)(it-items),0,0);
   int r = atomic_fetch_add(&running[q],1);
   if (it->bar) { if (r != 0) fail("barrier/serial item started while another item of its queue was running: queue/running", q, r, 0); atomic_fetch_add(&barrier_running[q],1); }
@@ -70,15 +87,15 @@ static void *client(void *a){ int me=(int)(intptr_t)a; dispatch_group_t g=dispat
     if (k==7){ int depth = (rnd()%3==0) ? 130 : 70; for (int j=0;j<depth;j++) dispatch_suspend(Q[q]); for (int j=0;j<depth;j++) dispatch_resume(Q[q]); continue; }
     if (k==11){ item_t tmp={ .q=q }; dispatch_apply_f(1+rnd()%4, Q[q], &tmp, work_apply); continue; }
     int idx=atomic_fetch_add(&nitems,1); if(idx>=MAXIT) break; item_t *it=&items[idx]; it->q=q; it->thread=me;
-    it->bar = (q==0) || k==1 || k==3 || k==9; it->sync = (k==2||k==3||k==8||k==9);
+    it->bar = (q==0) || k==1 || k==3 || k==9; it->sync = (k==2||k==3||k==8||k==9); it->kind=k;
     atomic_fetch_add(&expected,1);
-    atomic_store(&it->call, atomic_fetch_add(&clk,1)+1);
+    tl_overtake=0; tl_pre_open=0; atomic_store(&it->call, atomic_fetch_add(&clk,1)+1); mark("MARK_call", q, idx);
     switch(k){ case 1: dispatch_barrier_async_f(Q[q], it, work); break;
       case 2: dispatch_sync_f(Q[q], it, work); break; case 3: dispatch_barrier_sync_f(Q[q], it, work); break;
       case 8: dispatch_async_and_wait_f(Q[q], it, work); break; case 9: dispatch_barrier_async_and_wait_f(Q[q], it, work); break;
       case 10: dispatch_group_async_f(g, Q[q], it, work); break;
       default: dispatch_async_f(Q[q], it, work); break; }
-    atomic_store(&it->ret, atomic_fetch_add(&clk,1)+1);
+    for(int w=0;w<NQ;w++) win_close(w); mark("MARK_ret", q, idx); atomic_store(&it->ret, atomic_fetch_add(&clk,1)+1);
     if (it->sync && !atomic_load(&it->end)) fail("synchronous submission returned before its item finished: item/kind", idx, k, 0); }
   dispatch_group_wait(g, DISPATCH_TIME_FOREVER); dispatch_release(g);
   return NULL; }
@@ -86,6 +103,7 @@ static void dump(void){
   unsigned long n = atomic_load(&nev); if (n>MAXEV) n=MAXEV;
   for (unsigned long i=0;i<n;i++){ ev_t *e=&evs[i]; printf("E %lu %d %d %d %d %016lx %016lx %s %d\n", e->seq, e->tid, e->q, e->off, e->op, e->o, e->n, e->func, e->line); }
   fflush(stdout); }
+static long known_overtakes;
 static int cmp_start(const void *a, const void *b){ long x=(*(item_t**)a)->start, y=(*(item_t**)b)->start; return x<y?-1:x>y; }
 static void oracle(void){ int n=atomic_load(&nitems); if(n>MAXIT) n=MAXIT;
   for(int i=0;i<n;i++){ item_t *a=&items[i]; if(a->runs!=1) { fail("item run count != 1 at quiescence: item/runs/queue",i,a->runs,a->q); return; } }
@@ -96,21 +114,31 @@ static void oracle(void){ int n=atomic_load(&nitems); if(n>MAXIT) n=MAXIT;
   // order in which they started must respect "submission of A returned before submission of B began"
   { long maxcall_started = 0; (void)maxcall_started;
     for(int i=0;i<ns;i++) for(int j=i+1;j<ns;j++){ item_t *a=s[j], *b=s[i]; // b started before a
-        if(a->ret && a->ret < b->call) { fail("serial queue: item B started before item A although A's submission had returned before B's began: A/B",(long)(a-items),(long)(b-items),0); i=ns; break; } } }
+        if(a->ret && a->ret < b->call && b->overtook) { known_overtakes++; continue; }
+        if(a->ret && a->ret < b->call) { fail("serial queue: item B started before item A although A's submission had returned before B's began: A/B",(long)(a-items),(long)(b-items),0);
+          if(getenv("TR_LANE_DEBUG")) fprintf(stderr,"A: kind %d thread %d call %ld ret %ld start %ld end %ld | B: kind %d thread %d call %ld ret %ld start %ld end %ld\n",a->kind,a->thread,a->call,a->ret,a->start,a->end,b->kind,b->thread,b->call,b->ret,b->start,b->end);
+          i=ns; break; } } }
   // concurrent queue: barriers exclude and order
   for(int i=0;i<n && !viol;i++){ item_t *b=&items[i]; if(b->q!=1 || !b->bar) continue;
     for(int j=0;j<n;j++){ item_t *x=&items[j]; if(x==b || x->q!=1) continue;
       if(!(x->end < b->start || b->end < x->start)) { fail("concurrent queue: a barrier overlapped another item: barrier/item",i,j,0); break; }
-      if(x->ret && x->ret < b->call && !(x->end < b->start)) { fail("concurrent queue: item submitted before the barrier did not finish before it started: item/barrier",j,i,0); break; }
-      if(b->ret && b->ret < x->call && !(b->end < x->start)) { fail("concurrent queue: item submitted after the barrier returned started before it finished: barrier/item",i,j,0); break; } } }
+      if(x->ret && x->ret < b->call && !(x->end < b->start) && x->end && b->overtook && x->start > b->end) { known_overtakes++; continue; }
+      if(x->ret && x->ret < b->call && !(x->end < b->start)) { fail("concurrent queue: item submitted before the barrier did not finish before it started: item/barrier",j,i,0);
+        if(getenv("TR_LANE_DEBUG")) fprintf(stderr,"X: kind %d bar %d thread %d call %ld ret %ld start %ld end %ld | B: kind %d thread %d call %ld ret %ld start %ld end %ld\n",x->kind,x->bar,x->thread,x->call,x->ret,x->start,x->end,b->kind,b->thread,b->call,b->ret,b->start,b->end);
+        break; }
+      if(b->ret && b->ret < x->call && !(b->end < x->start) && x->overtook && x->end < b->start) { known_overtakes++; continue; }   // F15: x ran entirely before the queued barrier
+      if(b->ret && b->ret < x->call && !(b->end < x->start)) { fail("concurrent queue: item submitted after the barrier returned started before it finished: barrier/item",i,j,0);
+        if(getenv("TR_LANE_DEBUG")) fprintf(stderr,"B: kind %d thread %d call %ld ret %ld start %ld end %ld | X: kind %d bar %d overtook %d thread %d call %ld ret %ld start %ld end %ld\n",b->kind,b->thread,b->call,b->ret,b->start,b->end,x->kind,x->bar,x->overtook,x->thread,x->call,x->ret,x->start,x->end);
+        break; } } }
   free(s); }
 static void *watchdog(void *a){ (void)a; int last=-1, same=0; for(;;){ usleep(200000); int d=atomic_load(&done_items); if (d==last) same++; else same=0; last=d; if (same>=100){ // 20 s without progress
-      printf("STUCK %d of %d items done: accepted work items never ran or synchronous submissions never returned\n", d, atomic_load(&expected)); _dispatch_verif_atomic_cb=0; dump(); _exit(3);} } return 0; }
+      printf("STUCK %d of %d items done: accepted work items never ran or synchronous submissions never returned (dq_state serial %016lx concurrent %016lx)\n", d, atomic_load(&expected),
+        *(volatile uint64_t*)_dispatch_verif_queue_state_addr(Q[0]), *(volatile uint64_t*)_dispatch_verif_queue_state_addr(Q[1])); _dispatch_verif_atomic_cb=0; dump(); _exit(3);} } return 0; }
 int main(int argc, char **argv){
   seed = argc>1 ? strtoull(argv[1],0,0) : 1; int nthr = argc>2 ? atoi(argv[2]) : 4; nops = argc>3 ? atoi(argv[3]) : 200; serial_only = argc>4 ? atoi(argv[4]) : 0;
-  evs = calloc(MAXEV, sizeof(ev_t)); items=calloc(MAXIT,sizeof(item_t));
+  marks = getenv("TR_LANE_MARKS")!=NULL; evs = calloc(MAXEV, sizeof(ev_t)); items=calloc(MAXIT,sizeof(item_t));
   Q[0] = dispatch_queue_create("s", DISPATCH_QUEUE_SERIAL); Q[1] = dispatch_queue_create("c", DISPATCH_QUEUE_CONCURRENT);
-  for(int i=0;i<NQ;i++) printf("Q %d width %d stateoff %ld\n", i, i==0?1:4094, (long)((char*)_dispatch_verif_queue_state_addr(Q[i])-(char*)Q[i]));
+  for(int i=0;i<NQ;i++){ stateoff[i]=(long)((char*)_dispatch_verif_queue_state_addr(Q[i])-(char*)Q[i]); printf("Q %d width %d stateoff %ld\n", i, i==0?1:4094, stateoff[i]); }
   _dispatch_verif_yield_cb = ycb; _dispatch_verif_atomic_cb = cb;
   pthread_t wd; pthread_create(&wd,0,watchdog,0);
   pthread_t th[64]; for (int i=0;i<nthr;i++) pthread_create(&th[i],0,client,(void*)(intptr_t)i);
@@ -120,6 +148,6 @@ int main(int argc, char **argv){
   _dispatch_verif_atomic_cb = 0; _dispatch_verif_yield_cb = 0;
   if (atomic_load(&done_items) < atomic_load(&expected)) { printf("STUCK %d of %d items done\n", atomic_load(&done_items), atomic_load(&expected)); dump(); return 3; }
   oracle();
-  if (viol) printf("ORACLE VIOL seed=%llu %s\n",(unsigned long long)seed,vmsg); else printf("ORACLE ok items=%d events=%lu\n", atomic_load(&nitems), atomic_load(&nev));
+  if (viol) printf("ORACLE VIOL seed=%llu %s\n",(unsigned long long)seed,vmsg); else printf("ORACLE ok items=%d events=%lu sync_fastpath_overtakes=%ld\n", atomic_load(&nitems), atomic_load(&nev), known_overtakes);
   dump();
   return viol?1:0; }
